@@ -208,7 +208,7 @@ def check(prop, tier):
     n_runs = mod.N_QUICK if tier == "quick" else mod.N_THOROUGH
     if os.environ.get("VERIF_RUNS"):
         n_runs = int(os.environ["VERIF_RUNS"])
-    budget_s = float(os.environ.get("VERIF_BUDGET_S", "150" if tier == "quick" else "1500"))
+    budget_s = float(os.environ.get("VERIF_BUDGET_S", "120" if tier == "quick" else "2400"))
     print("check %s tier=%s VERIF_SEED=%d runs=%d workers=%d pyhms=%s" % (prop, tier, verif_seed, n_runs, workers,
                                                                         hmssim.PYHMS_SRC), flush=True)
     t_check0 = time.time()
